@@ -44,6 +44,7 @@ type Run struct {
 	Ghosts       []ghost // data store objects of dropped collections, kept to be used after the drop
 	ghostWrites  int
 	stoppedFeeds []*Collector
+	cpSeen       map[int]uint64                 // per collection: highest CAS its checkpointed dump runs delivered
 	heldIters    []sgbucket.QueryResultIterator // query iterators left open by "hold" queries
 	SharedKeyOps int                            // steps whose key existed in >= 2 collections in different states
 	IsoProbes    bool                           // C11: compare query/view/ddoc probes of other collections after each step
@@ -435,6 +436,12 @@ func (r *Run) Step(op Op) {
 		r.frame(op.C, op.Key, op.K)
 	}
 	m.Commit(op.C, op.Key, post, op.K)
+	if res.Err == "" && post.Present && post.Cas != p.Cas {
+		if pj := pinnedJSON(op, post); pj != nil {
+			// the entry point fixes the datatype of what it stored: known without waiting for the feed
+			m.Info(op.C, op.Key).IsJSON = pj
+		}
+	}
 	if post.Present && post.Cas != p.Cas && !family(op).meta && post.Cas > m.MaxIssued {
 		m.MaxIssued = post.Cas
 	}
